@@ -12,8 +12,8 @@ namespace Dec.Static
 theorem all_translated : Dec.Gen.Code.untranslated.isEmpty = true := by
   decide +kernel
 
-/-- the 206 routines of `translate/whitelist.txt` are all there -/
-theorem translated_count : Dec.Gen.Code.translated.length = 206 := by
+/-- the 219 routines of `translate/whitelist.txt` are all there -/
+theorem translated_count : Dec.Gen.Code.translated.length = 219 := by
   decide +kernel
 
 end Dec.Static
